@@ -276,6 +276,27 @@ def frag_term(n):
     return f"(Frag [] {names_lit(n['doms'])} {names_lit(used)} [{'; '.join(subs)}])"
 
 
+def io_order(n):
+    """names of the IO ports in the order Design._collect_used_signals meets them: Module puts the named
+    submodules first (insertion order), then the anonymous ones"""
+    kids = []
+    if n["mem"]:
+        kids.append((n["mem"]["n"], None))
+    if n["inst"]:
+        kids.append((n["inst"]["n"], None))
+    if n["io"]:
+        kids.append((None, n["io"]["name"]))
+    for s in n["subs"]:
+        kids.append((s["n"], s))
+    out = []
+    for nm, k in [x for x in kids if x[0] is not None] + [x for x in kids if x[0] is None]:
+        if isinstance(k, str):
+            out.append(k)
+        elif isinstance(k, dict):
+            out += io_order(k)
+    return out
+
+
 def names_lit(l):
     return "[" + "; ".join(qn(s) for s in l) + "]"
 
@@ -372,7 +393,11 @@ SCRIPTS = ["build_top", "b", "\u00e9", ""]
 
 def gen_plan(r):
     n = r.randint(1, 7)
-    names = r.sample(FILE_POOL, n)
+    names = []
+    for nm in r.sample(FILE_POOL, n):        # a file name must not be a directory of another one
+        if not any(o.startswith(nm + "/") or nm.startswith(o + "/") for o in names):
+            names.append(nm)
+    n = len(names)
     if r.random() < 0.04 and n >= 2:
         names[-1] = names[0]
     adds = []
@@ -817,7 +842,7 @@ def coq_term(c):
     if k == "dom":
         D = c["design"]
         up = "; ".join(f"({qopt(nm)}, {qn(D['sigs'][i][0])})" for nm, i in D["ports"])
-        return f"k_dom {frag_term(D['top'])} [{up}]"
+        return f"k_dom {frag_term(D['top'])} [{up}] {names_lit(io_order(D['top']))}"
     if k == "names":
         parts = []
         for f in c["frs"]:
